@@ -542,7 +542,7 @@ def site_case(sv, wd, emptydir):
     # what to ask the writer
     names = [n for f in files.values() for n in header_names(f)] + [s.partition('/')[0] for s in cli]
     free = [n for n in query_names(rng, [x for x in names if not base_of(base_of(x)).startswith(BUILTIN)])]
-    user = free + ['Game', 'Titles', 'Page:Bugs', 'Page:Px', 'Template:footer']
+    user = free + ['Game', 'Titles', 'Page:Bugs', 'Page:Px', 'Template:footer', 'Config']
     qn = [[n, 1] for n in free] + [['Game', 0], ['Titles', 0], ['Config', 0], ['Page:Bugs', 0], ['Page:Px', 0], ['Template:footer', 1]]
     pf = [p for p in query_prefixes([x for x in names if not x.startswith(BUILTIN)]) if p not in ('Page', 'Template')][:5] + ['Page']
     qfile, ofile = os.path.join(d, 'queries.json'), os.path.join(d, 'obs.json')
@@ -568,7 +568,7 @@ def site_case(sv, wd, emptydir):
         os.environ['HOME'] = oldhome
     meta = dict(files=files, cli=cli, cmd=cmd_names, auto=auto_names, ini=ini, icli=icli, argv=argv[:-1 - len(cmd_names)], exit=code)
     if not os.path.isfile(ofile):
-        return dict(k='crash', key='s%d' % sv, meta=meta, err=(err or out)[-400:])
+        return dict(k='crash', key='s%d' % sv, meta=meta, err=(err or out)[-400:], exit=code)
     with open(ofile) as f:
         obs = json.load(f)
     auto_order = sorted(n for n in auto_names if n != 'game.ref')
